@@ -5,7 +5,7 @@ import engine
 HARNESSES = {
     'ut_map': ['do_find', 'do_erase', 'do_update', 'do_insert', 'do_insert_update', 'insert', 'erase', 'find', 'clean_expired_values'],
     'ut_set': ['do_find', 'do_erase', 'do_update', 'do_insert', 'do_insert_update', 'insert', 'erase', 'find', 'clean_expired_values'],
-    'tlru_cache': ['do_erase', 'do_prune', 'do_find', 'do_update', 'do_insert', 'do_insert_update', 'find', 'erase', 'insert'],
+    'tlru_cache': ['do_erase', 'do_prune', 'do_find', 'do_update', 'find', 'erase'],
     'lfu_cache': ['do_erase', 'do_prune', 'do_find', 'do_update', 'do_insert', 'do_insert_update', 'erase', 'insert', 'find_with_use_count'],
     'fifo_cache': ['do_find', 'do_update', 'find'],
     'rr_cache': ['do_erase', 'do_prune', 'do_find', 'do_update', 'do_insert', 'do_insert_update', 'find', 'erase', 'insert'],
@@ -16,14 +16,17 @@ HARNESSES = {
 
 QUICK = ('do_update', 'do_find')  # two to four minutes each for the list-based caches
 QUICK_ALL = ('rr_cache',)                   # every unit of these containers finishes in about a minute
+THOROUGH_ONLY = ('tlru_cache',)             # 5-25 minutes per unit: no unit of these containers in the quick tier
 
 
 # harnesses that exist but whose z3 query did not finish within two hours (not registered in any check):
-EXPERIMENTAL = {'fifo_cache': ['do_erase', 'do_insert', 'do_insert_update', 'erase', 'insert']}
+EXPERIMENTAL = {'fifo_cache': ['do_erase', 'do_insert', 'do_insert_update', 'erase', 'insert'],
+                # tlru: do_insert (45 min) and insert (1 h 47 min) were proved once, do_insert_update did not finish in 2 h
+                'tlru_cache': ['do_insert', 'do_insert_update', 'insert']}
 
 
 # containers whose route U units are registered in the property checks (every unit validated on the unchanged tree)
-REGISTERED = ('lru_cache', 'mru_cache', 'rr_cache', 'fifo_cache', 'lfu_cache', 'ut_map', 'ut_set')
+REGISTERED = ('lru_cache', 'mru_cache', 'rr_cache', 'fifo_cache', 'lfu_cache', 'ut_map', 'ut_set', 'tlru_cache')
 
 
 # calls replaced by a contract stub (assumed contract of a repository function that is only decided in route B)
